@@ -666,6 +666,176 @@ bool drive_vec_named(std::string const &k, std::string const &t, std::size_t con
   return false;
 }
 
+
+// ------------------------------------------------------------------------------ several vectors / dims on ONE stream
+// (in scope: "vector and dim output/input").  Values of mixed shapes are written to one stream,
+// each preceded by a separator (white space or nothing), optionally after an int, and read back
+// in order with operator>>.
+std::vector<ull> lattice(unsigned bits, vj::Rng &r, std::size_t nrandom);
+
+struct SeqItem
+{
+  std::string k;
+  std::string t;
+  std::vector<Num> xs;
+};
+
+template <typename F>
+bool with_shape(std::string const &k, std::string const &t, std::size_t const n, F const &f)
+{
+#define C15_SHAPE(K, KIND, T, N) \
+  if (k == K && t == tname<T>::get() && n == N) \
+  { \
+    f(static_cast<KIND<T, N> *>(nullptr)); \
+    return true; \
+  }
+  C15_SHAPE("vector", vec_t, int, 1)
+  C15_SHAPE("vector", vec_t, int, 2)
+  C15_SHAPE("vector", vec_t, int, 3)
+  C15_SHAPE("vector", vec_t, int, 4)
+  C15_SHAPE("vector", vec_t, long, 2)
+  C15_SHAPE("vector", vec_t, unsigned, 3)
+  C15_SHAPE("vector", vec_t, short, 2)
+  C15_SHAPE("dim", dim_t, unsigned, 2)
+  C15_SHAPE("dim", dim_t, int, 3)
+  C15_SHAPE("dim", dim_t, unsigned long, 2)
+  C15_SHAPE("dim", dim_t, int, 1)
+#undef C15_SHAPE
+  return false;
+}
+
+template <typename Ch>
+void drive_vecseq(bool const lead, int const lead_value, std::vector<std::string> const &seps, std::vector<SeqItem> const &items)
+{
+  vj::J pre;
+  pre.kv("f", "vecseq").kv("ch", sizeof(Ch) == 1 ? "c" : "w");
+  pre.raw("lead", lead ? "[" + num_json(num_of(lead_value)) + "]" : std::string("[]"));
+  std::string sj = "[";
+  for (std::size_t i = 0; i < seps.size(); ++i) sj += (i ? "," : "") + vj::cps(seps[i]);
+  pre.raw("seps", sj + "]");
+  std::string ij = "[";
+  for (std::size_t i = 0; i < items.size(); ++i)
+  {
+    SeqItem const &it = items[i];
+    int bits = 0;
+    int sg = 0;
+    with_shape(it.k, it.t, it.xs.size(), [&]<typename V>(V *) {
+      bits = static_cast<int>(sizeof(typename V::value_type) * 8);
+      sg = std::is_signed_v<typename V::value_type> ? 1 : 0;
+    });
+    std::string xj = "[";
+    for (std::size_t j = 0; j < it.xs.size(); ++j) xj += (j ? "," : "") + num_json(it.xs[j]);
+    ij += std::string(i ? "," : "") + "{\"k\":\"" + it.k + "\",\"T\":\"" + it.t + "\",\"bits\":" + std::to_string(bits) + ",\"sg\":" + std::to_string(sg) +
+          ",\"xs\":" + xj + "]}";
+  }
+  pre.raw("items", ij + "]");
+  emit(pre, [&](vj::J &r) {
+    std::basic_ostringstream<Ch> out;
+    if (lead) out << lead_value;
+    for (std::size_t i = 0; i < items.size(); ++i)
+    {
+      for (char c : seps[i]) out << out.widen(c);
+      with_shape(items[i].k, items[i].t, items[i].xs.size(), [&]<typename V>(V *) {
+        V v{fcppt::no_init{}};
+        for (std::size_t j = 0; j < items[i].xs.size(); ++j) v.get_unsafe(j) = int_of_num<typename V::value_type>(items[i].xs[j]);
+        out << v;
+      });
+    }
+    r.raw("text", vj::cps(out.str()));
+    std::basic_istringstream<Ch> in(out.str());
+    if (lead)
+    {
+      int lv = 0;
+      bool const ok = static_cast<bool>(in >> lv);
+      r.kv("leadok", ok).raw("leadv", num_json(num_of(lv)));
+    }
+    std::string rj = "[";
+    for (std::size_t i = 0; i < items.size(); ++i)
+    {
+      with_shape(items[i].k, items[i].t, items[i].xs.size(), [&]<typename V>(V *) {
+        V back{fcppt::no_init{}};
+        for (std::size_t j = 0; j < items[i].xs.size(); ++j) back.get_unsafe(j) = typename V::value_type{};
+        bool const ok = static_cast<bool>(in >> back);
+        std::string yj = "[";
+        if (ok)
+          for (std::size_t j = 0; j < items[i].xs.size(); ++j) yj += (j ? "," : "") + num_json(num_of(back.get_unsafe(j)));
+        rj += std::string(i ? "," : "") + "{\"ok\":" + (ok ? "true" : "false") + ",\"ys\":" + yj + "]}";
+      });
+    }
+    r.raw("reads", rj + "]");
+  });
+}
+
+void vecseq_records(vj::Rng &r, bool const thorough)
+{
+  struct Sh
+  {
+    char const *k;
+    char const *t;
+    std::size_t n;
+    unsigned bits;
+    bool sg;
+  };
+  Sh const shapes[] = {{"vector", "int", 1, 32, true},   {"vector", "int", 2, 32, true},  {"vector", "int", 3, 32, true},
+                       {"vector", "int", 4, 32, true},   {"vector", "long", 2, 64, true}, {"vector", "uint", 3, 32, false},
+                       {"vector", "short", 2, 16, true}, {"dim", "uint", 2, 32, false},   {"dim", "int", 3, 32, true},
+                       {"dim", "ulong", 2, 64, false},   {"dim", "int", 1, 32, true}};
+  char const *const sep_set[] = {"", " ", "\n", "\t ", " \n "};
+  auto const item = [&](std::size_t const si) {
+    Sh const &sh = shapes[si];
+    SeqItem it{sh.k, sh.t, {}};
+    std::vector<ull> const lat = lattice(sh.bits, r, 8);
+    for (std::size_t j = 0; j < sh.n; ++j)
+    {
+      if (r.below(3) != 0)
+      {
+        long long const v = r.range(sh.sg ? -20 : 0, 20);
+        it.xs.push_back(num_of(v));
+      }
+      else
+      {
+        ull const p = lat[r.below(lat.size())];
+        if (sh.sg)
+          it.xs.push_back(num_of(sh.bits == 64   ? static_cast<long long>(p)
+                                 : sh.bits == 32 ? static_cast<long long>(static_cast<std::int32_t>(p))
+                                                 : static_cast<long long>(static_cast<std::int16_t>(p))));
+        else it.xs.push_back(Num{false, p});
+      }
+    }
+    return it;
+  };
+  // every separator before every position for sequences of two values; random longer ones
+  for (std::size_t s0 = 0; s0 < 5; ++s0)
+    for (std::size_t s1 = 0; s1 < 5; ++s1)
+      for (std::size_t a = 0; a < 11; ++a)
+      {
+        std::size_t const b = (a * 7 + s0 + s1) % 11;
+        for (int lead = 0; lead < 2; ++lead)
+        {
+          // after an int a separator is needed for the int to end; "" would glue "5(" which is fine as well
+          std::vector<std::string> const seps{sep_set[s0], sep_set[s1]};
+          std::vector<SeqItem> const items{item(a), item(b)};
+          if ((a + s0 + s1 + static_cast<std::size_t>(lead)) % 2 == 0) drive_vecseq<char>(lead != 0, 5 + static_cast<int>(a), seps, items);
+          else drive_vecseq<wchar_t>(lead != 0, -7 * static_cast<int>(a), seps, items);
+        }
+      }
+  std::size_t const n = thorough ? 20000 : 1500;
+  for (std::size_t j = 0; j < n; ++j)
+  {
+    std::size_t const len = 1 + r.below(4);
+    std::vector<std::string> seps;
+    std::vector<SeqItem> items;
+    for (std::size_t i = 0; i < len; ++i)
+    {
+      seps.emplace_back(sep_set[r.below(5)]);
+      items.push_back(item(r.below(11)));
+    }
+    bool const lead = r.below(3) == 0;
+    if (j % 2 == 0) drive_vecseq<char>(lead, static_cast<int>(r.range(-1000, 1000)), seps, items);
+    else drive_vecseq<wchar_t>(lead, static_cast<int>(r.range(-1000, 1000)), seps, items);
+  }
+}
+
 // ------------------------------------------------------------------------------ UTF-8 locale
 std::locale const &utf8_locale()
 {
@@ -1261,6 +1431,7 @@ void record(std::uint64_t const seed, bool const thorough)
   {
     vj::Rng er(seed * 131ULL + 5ULL);
     extension_records(er, thorough);
+    vecseq_records(er, thorough);
   }
   std::size_t const nrand = thorough ? 40000 : 4096;
   // ---- binary
@@ -1590,6 +1761,28 @@ bool replay_one(vj::V const &e)
     std::vector<Num> xs;
     for (auto const &x : e.at("xs").a) xs.push_back(num_of_json(*x));
     return drive_vec_named(e.str("k"), e.str("T"), xs.size(), e.str("ch") == "w", xs);
+  }
+  if (f == "vecseq")
+  {
+    std::vector<std::string> seps;
+    for (auto const &x : e.at("seps").a)
+    {
+      std::string sp;
+      for (auto const &c : x->a) sp += static_cast<char>(c->n);
+      seps.push_back(sp);
+    }
+    std::vector<SeqItem> items;
+    for (auto const &x : e.at("items").a)
+    {
+      SeqItem it{x->str("k"), x->str("T"), {}};
+      for (auto const &v : x->at("xs").a) it.xs.push_back(num_of_json(*v));
+      items.push_back(it);
+    }
+    bool const lead = !e.at("lead").a.empty();
+    int const lv = lead ? int_of_num<int>(num_of_json(*e.at("lead").a.at(0))) : 0;
+    if (e.str("ch") == "c") drive_vecseq<char>(lead, lv, seps, items);
+    else drive_vecseq<wchar_t>(lead, lv, seps, items);
+    return true;
   }
   if (f == "utf8")
   {
